@@ -644,12 +644,13 @@ def triage_gw(ctx, viols, stalls, stall_props=(), monitor_props=None):
             continue
         keep = os.path.join(REPLAYS, "%s-crash-%s" % (ctx.pid, os.path.basename(hist)))
         subprocess.run(["cp", hist, keep])
-        if ctx.pid in ("C15", "C20"):
-            ctx.add_violation("the gateway process died during history %s: %s" % (os.path.basename(path), msg),
-                              {"kind": "gw", "history": keep, "crash": msg})
-        else:
-            ctx.notes.append("gateway crashed in %s (%s): reported by the C15 check" % (os.path.basename(path), msg))
-    if ctx.pid in stall_props:
+        # a dead gateway process holds no property for that history (C15 names it; every other property's history ends
+        # there with requests unanswered and clients diverging)
+        ctx.add_violation("the gateway process died during history %s: %s" % (os.path.basename(path), msg),
+                          {"kind": "gw", "history": keep, "crash": msg})
+    if True:
+        # a stall (work accepted by a worker queue that no worker will ever run) is confirmed by re-executing the history
+        # in a fresh process before it is reported (gwrun); it ends every property's history like a crash does
         for s in stalls[:1]:
             hist = s[:-len(".trace")] + ".history.json"
             keep = os.path.join(REPLAYS, "%s-stall-%s" % (ctx.pid, os.path.basename(hist)))
